@@ -66,7 +66,15 @@ func c08BigRetained(idx int, seed uint64) {
 		pub.SendPacket(&rc.Packet{Type: rc.PUBLISH, Topic: []byte(topic), Retain: true, QoS: q, ID: uint16(i + 1), Payload: spec.MakePayload(uid, 0, n)})
 		store[topic] = stored{uid: uid, qos: q, n: n, fits: true}
 	}
-	if !ping(pub) {
+	// a QoS 2 publish is stored when its PUBREL has been handled, and the PUBREL goes out only when the
+	// PUBREC has come in: wait for the last acknowledgement of every exchange before the barrier
+	nack := 0
+	for _, st := range store {
+		if st.qos > 0 {
+			nack++
+		}
+	}
+	if pub.WaitFor(func(l []rawclient.Event, closed bool) bool { return countType(l, rc.PUBACK)+countType(l, rc.PUBCOMP) >= nack }, wait) != nil || !ping(pub) {
 		fail("c08:bigretained:stuck", "the publisher of the fitting retained messages is not answered")
 		return
 	}
